@@ -1,6 +1,7 @@
 SPECIFICATION GSpec
 CONSTANTS
   Mode = "rm"
+  Objs = {1}
   Keys = {1,2}
   D = 7
   Outcomes = {"ok","err"}
